@@ -35,7 +35,10 @@ CONSTANTS
   MaxFail,     \* bound on failing connect() calls
   MaxKill,     \* bound on connections closed by the node
   Eager,       \* TRUE: steps no gate can hold back have priority (the sub-graph a gate scheduler can drive)
-  Defect_AddDeadConn, \* TRUE: connect() appends a connection that died before it was added (code today)
+  Defect_AddDeadConn, \* TRUE: connect() appends a connection that died before it was added
+  CloseErr,    \* TRUE: the sockets' Close() reports an error; Conn.Close then calls the pool's HandleError
+               \* on the closing goroutine (re-entrance: HandleError takes pool.mu)
+  Defect_LateCloseUnderLock, \* TRUE: connect() closes a late arrival while it still holds pool.mu
   Mut          \* "none", or a protocol mutation (model self-test only)
 
 Fillers == Triggers \cup Spawned
@@ -59,11 +62,12 @@ VARIABLES
   cown,      \* connect() call -> owning filler
   nextc,     \* next unused connect id
   fails, kills,
+  lockDead,  \* some goroutine waits for pool.mu while holding it: the lock is never released again
   kpc,       \* closer -> "idle" | "closing" | "done"
   closeQ     \* closer -> connections taken out of the pool, still to be closed
 
 vars == <<conns, filling, closed, open, dialed, dead, pendHE, handled, fpc, frem, ferr, cpc, cown,
-          nextc, fails, kills, kpc, closeQ>>
+          nextc, fails, kills, kpc, closeQ, lockDead>>
 
 NoFiller == "nobody"
 
@@ -78,6 +82,7 @@ Init ==
   /\ nextc = 1 /\ fails = 0 /\ kills = 0
   /\ kpc = [k \in Closers |-> "idle"]
   /\ closeQ = [k \in Closers |-> {}]
+  /\ lockDead = FALSE
 
 \* start n connect() calls owned by f (on top of the updates cpc1 / cown1)
 StartConnects(f, n, cpc1) ==
@@ -87,6 +92,7 @@ StartConnects(f, n, cpc1) ==
 
 (* ---- fill ----------------------------------------------------------------- *)
 FillCheck(f) ==
+  /\ ~lockDead /\ UNCHANGED lockDead
   /\ \/ f \in Triggers /\ fpc[f] = "idle"
      \/ f \in Spawned /\ fpc[f] = "start"
   /\ fpc' = [fpc EXCEPT ![f] = IF closed \/ filling \/ Cardinality(conns) >= Size THEN "done" ELSE "gate"]
@@ -94,6 +100,7 @@ FillCheck(f) ==
                  nextc, fails, kills, kpc, closeQ>>
 
 FillRecheck(f) ==
+  /\ ~lockDead /\ UNCHANGED lockDead
   /\ fpc[f] = "gate"
   /\ LET n == Cardinality(conns)
          need == Size - n
@@ -136,6 +143,7 @@ Finish(c, failed, cpc1) ==
        /\ UNCHANGED <<frem, cown, nextc>>
 
 Dial(c, ok) ==
+  /\ UNCHANGED lockDead
   /\ cpc[c] = "dial"
   /\ IF ok
      THEN /\ cpc' = [cpc EXCEPT ![c] = "connected"]
@@ -149,21 +157,31 @@ Dial(c, ok) ==
   /\ UNCHANGED <<conns, filling, closed, dead, pendHE, handled, kills, kpc, closeQ>>
 
 ConnectAdd(c) ==
+  /\ ~lockDead
   /\ cpc[c] = "connected"
   /\ LET cpc1 == [cpc EXCEPT ![c] = "done"] IN
      IF closed /\ Mut # "appendclosed"
-     THEN /\ open' = open \ {c}                                   \* late arrival: closed again
-          /\ Finish(c, FALSE, cpc1)
-          /\ UNCHANGED conns
+     THEN IF CloseErr /\ Defect_LateCloseUnderLock
+          THEN \* late arrival closed under the lock; the socket's Close error is handed to HandleError,
+               \* which waits for the lock this goroutine holds
+               /\ open' = open \ {c}
+               /\ lockDead' = TRUE
+               /\ cpc' = [cpc EXCEPT ![c] = "stuck"]
+               /\ UNCHANGED <<conns, handled, fpc, frem, ferr, cown, nextc>>
+          ELSE /\ open' = open \ {c}                                   \* late arrival: closed again
+               /\ handled' = IF CloseErr THEN handled \cup {c} ELSE handled  \* its error callback: a no-op
+               /\ Finish(c, FALSE, cpc1)
+               /\ UNCHANGED <<conns, lockDead>>
      ELSE IF c \in dead /\ ~Defect_AddDeadConn
      THEN /\ Finish(c, TRUE, cpc1)                                \* refused: it is already closed
-          /\ UNCHANGED <<conns, open>>
+          /\ UNCHANGED <<conns, open, handled, lockDead>>
      ELSE /\ conns' = conns \cup {c}
           /\ Finish(c, FALSE, cpc1)
-          /\ UNCHANGED open
-  /\ UNCHANGED <<filling, closed, dialed, dead, pendHE, handled, fails, kills, kpc, closeQ>>
+          /\ UNCHANGED <<open, handled, lockDead>>
+  /\ UNCHANGED <<filling, closed, dialed, dead, pendHE, fails, kills, kpc, closeQ>>
 
 FillEnd(f) ==
+  /\ ~lockDead /\ UNCHANGED lockDead
   /\ fpc[f] = "end"
   /\ filling' = (Mut = "nofillend" /\ filling)
   /\ fpc' = [fpc EXCEPT ![f] = "done"]
@@ -174,6 +192,7 @@ FillEnd(f) ==
 FreeSpawned == {h \in Spawned : fpc[h] = "idle"}
 
 Kill(c) ==
+  /\ UNCHANGED lockDead
   /\ c \in open
   /\ c \in conns \/ cpc[c] = "connected"
   /\ kills < MaxKill
@@ -185,6 +204,7 @@ Kill(c) ==
   /\ UNCHANGED <<conns, filling, closed, dialed, handled, fpc, frem, ferr, cpc, cown, nextc, fails, kpc, closeQ>>
 
 HandleError(c) ==
+  /\ ~lockDead /\ UNCHANGED lockDead
   /\ c \in pendHE
   /\ pendHE' = pendHE \ {c}
   /\ handled' = handled \cup {c}
@@ -196,22 +216,36 @@ HandleError(c) ==
 
 (* ---- Close ------------------------------------------------------------------ *)
 Close1(k) ==
+  /\ ~lockDead
   /\ kpc[k] = "idle"
   /\ IF closed
      THEN /\ kpc' = [kpc EXCEPT ![k] = "done"]
-          /\ UNCHANGED <<closed, conns, closeQ>>
+          /\ UNCHANGED <<closed, conns, closeQ, open, lockDead>>
+     ELSE IF Mut = "closeunderlock" /\ CloseErr /\ conns # {}
+     THEN \* (mutation) the connections are closed while the lock is held: the first Close error re-enters
+          \* HandleError on this goroutine
+          /\ closed' = TRUE
+          /\ open' = open \ {CHOOSE c \in conns : TRUE}
+          /\ lockDead' = TRUE
+          /\ kpc' = [kpc EXCEPT ![k] = "closing"]
+          /\ UNCHANGED <<conns, closeQ>>
      ELSE /\ closed' = TRUE
           /\ kpc' = [kpc EXCEPT ![k] = "closing"]
           /\ closeQ' = [closeQ EXCEPT ![k] = IF Mut = "closekeeps" THEN {} ELSE conns]
           /\ conns' = {}
-  /\ UNCHANGED <<filling, open, dialed, dead, pendHE, handled, fpc, frem, ferr, cpc, cown, nextc, fails, kills>>
+          /\ UNCHANGED <<open, lockDead>>
+  /\ UNCHANGED <<filling, dialed, dead, pendHE, handled, fpc, frem, ferr, cpc, cown, nextc, fails, kills>>
 
+\* the taken connections are closed outside the lock; with CloseErr each Close calls HandleError, which takes
+\* the lock, finds the pool closed and returns
 Close2(k) ==
+  /\ ~lockDead /\ UNCHANGED lockDead
   /\ kpc[k] = "closing"
   /\ open' = open \ closeQ[k]
+  /\ handled' = IF CloseErr THEN handled \cup closeQ[k] ELSE handled
   /\ closeQ' = [closeQ EXCEPT ![k] = {}]
   /\ kpc' = [kpc EXCEPT ![k] = "done"]
-  /\ UNCHANGED <<conns, filling, closed, dialed, dead, pendHE, handled, fpc, frem, ferr, cpc, cown, nextc,
+  /\ UNCHANGED <<conns, filling, closed, dialed, dead, pendHE, fpc, frem, ferr, cpc, cown, nextc,
                  fails, kills>>
 
 (* ---- next-state relation ------------------------------------------------------
@@ -258,7 +292,7 @@ TypeOK ==
   /\ conns \subseteq ConnIds /\ open \subseteq ConnIds /\ dialed \subseteq ConnIds
   /\ filling \in BOOLEAN /\ closed \in BOOLEAN
   /\ fpc \in [Fillers -> {"idle", "start", "gate", "sync", "rest", "end", "done"}]
-  /\ cpc \in [ConnIds -> {"unused", "dial", "connected", "done"}]
+  /\ cpc \in [ConnIds -> {"unused", "dial", "connected", "stuck", "done"}]
   /\ nextc \in 1 .. MaxConn + 1
 
 \* a pool never holds more than the configured number of connections
@@ -278,6 +312,9 @@ Quiet == \A c \in ConnIds : cpc[c] \in {"unused", "done"}
 NoLeakAfterClose == (closed /\ Quiet /\ \A k \in Closers : kpc[k] # "closing") => open = {}
 \* a pool connection is alive, or its error callback is still to come
 PoolConnsAlive == conns \subseteq open \cup pendHE
+
+\* no pool method waits for the lock it holds (closing a connection may call back into HandleError)
+NoSelfDeadlock == ~lockDead
 
 \* liveness: a fill ends; whatever the dialer opened for a closed pool gets closed; Close returns
 FillEnds == filling ~> ~filling
